@@ -111,6 +111,17 @@ def validate_source(src, path, transformer_factory):
                 problems.append("co_firstlineno of some function differs")
             if ast.get_docstring(orig, clean=False) != ast.get_docstring(tree2, clean=False):
                 problems.append("module docstring differs")
+            # the same through the import hook's own loader (its compile() calls must not inherit anything from the hook module)
+            if len(src) < 20000:
+                from jaxtyping._import_hook import _JaxtypingLoader, Typechecker
+                ld = _JaxtypingLoader("verif_mod", path, typechecker=Typechecker("beartype.beartype"))
+                lc = ld.source_to_code(src.encode("utf-8"), path)
+                if lc.co_flags != c0.co_flags:
+                    problems.append("loader: __future__ compiler flags differ")
+                fl0 = sorted((c.co_name, c.co_firstlineno, c.co_flags) for c in iter_code(c0) if c.co_flags & 0x2)
+                fl1 = sorted((c.co_name, c.co_firstlineno, c.co_flags) for c in iter_code(lc) if c.co_flags & 0x2)
+                if [x for x in fl0 if x[0] in fns] != [x for x in fl1 if x[0] in fns]:
+                    problems.append("loader: flags / first line of some function's code differ")
         except SyntaxError:
             pass
     return row, problems
@@ -162,7 +173,7 @@ def render_skeleton(pro, forest_, rng):
     def emit_forest(fs, ind, out):
         for i, n in enumerate(fs):
             pad = "    " * ind
-            wrap = rng.choice(["", "", "if", "try", "match", "with"]) if ind < 2 else ""
+            wrap = rng.choice(["", "", "if", "try", "match", "with", "except", "finally", "else", "for"]) if ind < 2 else ""
             if wrap == "if":
                 out.append(f"{pad}if True:")
                 pad += "    "
@@ -175,6 +186,24 @@ def render_skeleton(pro, forest_, rng):
                 pad += "        "
             elif wrap == "with":
                 out.append(f"{pad}with open(__file__) as _f:")
+                pad += "    "
+            elif wrap == "except":       # the optional-accelerator idiom: the fallback is defined in the except clause
+                out.append(f"{pad}try:")
+                out.append(f"{pad}    import _no_such_module_")
+                out.append(f"{pad}except ImportError:")
+                pad += "    "
+            elif wrap == "finally":
+                out.append(f"{pad}try:")
+                out.append(f"{pad}    pass")
+                out.append(f"{pad}finally:")
+                pad += "    "
+            elif wrap == "else":
+                out.append(f"{pad}if False:")
+                out.append(f"{pad}    pass")
+                out.append(f"{pad}else:")
+                pad += "    "
+            elif wrap == "for":
+                out.append(f"{pad}for _i in range(1):")
                 pad += "    "
             for d in n["decs"]:
                 out.append(f"{pad}@{rng.choice(['deco', 'deco2(1)', 'ns.d'])}")
